@@ -90,7 +90,9 @@ L14Q == {<<"nmt", 1>>, <<"nmt", 128>>, <<"cfg", "cid", TRUE, 1, CidOffT>>, <<"cf
          <<"cfg", "map", TRUE, 1, 1, M("l", 32)>>, <<"cfg", "map", TRUE, 1, 2, M("l", 32)>>, <<"cfg", "map", TRUE, 1, 3, M("l", 32)>>, <<"cfg", "map", TRUE, 1, 1, M("n", 8)>>, <<"cfg", "map", FALSE, 1, 1, M("r", 8)>>, <<"cfg", "map", FALSE, 1, 1, M("l", 32)>>}
 L14TQ == {l \in L14Q : l[1] = "nmt" \/ l[3] = TRUE}
 L14RQ == {l \in L14Q : l[1] = "nmt" \/ l[3] = FALSE} \cup {<<"cfg", "cid", FALSE, 1, CidOnR>>, <<"cfg", "num", FALSE, 1, 2>>, <<"cfg", "map", FALSE, 1, 2, M("l", 32)>>}
-P14 == << <<"rdcfg", "cid", TRUE, 1>>, <<"rdcfg", "type", TRUE, 1>>, <<"rdcfg", "num", TRUE, 1>>, <<"rdcfg", "map", TRUE, 1, 1>>, <<"rdcfg", "map", TRUE, 1, 2>>, <<"rdcfg", "map", TRUE, 1, 3>>,
+\* (the first three letters look at the RUNNING PDOs before anything re-activates them: a reconfiguration while OPERATIONAL must have
+\* reached them already)
+P14 == << <<"rpdo", 517, D2>>, <<"rd", "b">>, <<"trig", 1>>, <<"rdcfg", "cid", TRUE, 1>>, <<"rdcfg", "type", TRUE, 1>>, <<"rdcfg", "num", TRUE, 1>>, <<"rdcfg", "map", TRUE, 1, 1>>, <<"rdcfg", "map", TRUE, 1, 2>>, <<"rdcfg", "map", TRUE, 1, 3>>,
           <<"rdcfg", "cid", FALSE, 1>>, <<"rdcfg", "num", FALSE, 1>>, <<"rdcfg", "map", FALSE, 1, 1>>,
           <<"nmt", 128>>, <<"nmt", 1>>, <<"trig", 1>>, <<"sync", 128>>, <<"rpdo", 517, D1>>, <<"rpdo", 518, D2>>, <<"sync", 128>>, <<"rd", "b">>, <<"rd", "l">> >>
 \* ---- C14W: eight mapping slots per PDO (8 x 32 bit stored, count 1): counts up to the largest the dictionary holds; the byte sum 8 * 4 = 32
